@@ -63,7 +63,7 @@ func TestExt20AgainstNativeGo(t *testing.T) {
 		}
 		add(fmt.Sprintf("g_Opaque_Twice %s", zs(k)), func() string { return zs((&sample.Opaque{}).Twice(k)) })
 		if k < 100 {
-			add(fmt.Sprintf("g_WithFrag_loop1 200 %s 5", zs(k)), func() string { return zs(sample.WithFrag(nil, k) + 5) })
+			add(fmt.Sprintf("g_WithFrag_loop1 200 [7; 8] %s", zs(k)), func() string { return zs(sample.WithFrag([]int{7, 8}, k)) })
 		}
 	}
 	for _, s := range []string{"", "a", "hello, world", "\xff\x00é"} {
